@@ -30,6 +30,8 @@ fn regenerate(c: &RefCell<u64>) -> u64 {
 
     loop {
         let rnd = rng.next_u64();
+        #[cfg(kismet_verif)]
+        let rnd = crate::verif_hooks::draw_trigger().unwrap_or(rnd);
         if rnd > 0 {
             c.replace(rnd);
             return rnd;
@@ -108,6 +110,20 @@ impl PeriodicTrigger {
     pub fn weighted_event(self, count: u64) -> bool {
         observe(self.scale.saturating_mul(count))
     }
+}
+
+/// Verification hook: overwrites the calling thread's countdown.
+#[cfg(kismet_verif)]
+pub(crate) fn verif_set_counter(value: u64) {
+    COUNTER.with(|c| {
+        c.replace(value);
+    });
+}
+
+/// Verification hook: returns the calling thread's countdown.
+#[cfg(kismet_verif)]
+pub(crate) fn verif_get_counter() -> u64 {
+    COUNTER.with(|c| *c.borrow())
 }
 
 #[test]
